@@ -183,7 +183,10 @@ func loadKnown() []KnownFinding {
 func harnessOverlay(run *RunSpec, workDir string) (map[string]string, []string, error) {
 	ov := map[string]string{}
 	var notes []string
-	ov[filepath.Join(repoDir, "zzverifrt", "rt.go")] = filepath.Join(verifDir, "rt", "rt.go")
+	rtFiles, _ := filepath.Glob(filepath.Join(verifDir, "rt", "*.go"))
+	for _, f := range rtFiles {
+		ov[filepath.Join(repoDir, "zzverifrt", filepath.Base(f))] = f
+	}
 	root := filepath.Join(verifDir, "harness")
 	err := filepath.Walk(root, func(p string, info os.FileInfo, err error) error {
 		if err != nil || info.IsDir() || !strings.HasSuffix(p, ".go") {
@@ -432,7 +435,7 @@ func cmdRun(args []string) int {
 			}
 			if confirmed != "" {
 				say("VIOLATION property=%s replay=%s", id, path)
-				say("  run=%s %s: %s (%d paths; confirmed %s) values: %s", run.Name, f0.Kind, f0.Label, len(fsn), confirmed, fmtModel(f0.Values))
+				say("  run=%s %s: %s %s (%d paths; confirmed %s) values: %s", run.Name, f0.Kind, f0.Label, f0.Msg, len(fsn), confirmed, fmtModel(f0.Values))
 				violations++
 				exit = 1
 			} else {
@@ -542,6 +545,7 @@ func exploreRun(spec *Spec, run *RunSpec, ts *TierSpec, nworkers, seed int, know
 	for w := 0; w < nworkers; w++ {
 		e := newEngine(ld.prog, run, ts, knownIDs, seed+w)
 		e.initAllow[harness.Pkg.Pkg.Path()] = true
+		e.initAllow[rtPkg] = true
 		e.witnessQuota = (wq + nworkers - 1) / nworkers
 		e.violCounter = &violCount
 		engines[w] = e
@@ -636,10 +640,10 @@ func exploreRun(spec *Spec, run *RunSpec, ts *TierSpec, nworkers, seed int, know
 			res.MaxThreads = e.maxThreads
 		}
 	}
-	if res.Ends["truncated"] > 0 || res.Ends["engine-error"] > 0 {
+	if res.Ends["truncated"] > 0 || res.Ends["engine-error"] > 0 || res.Ends["unsupported"] > 0 {
 		res.Complete = false
 		if res.StopReason == "" {
-			res.StopReason = "some paths were truncated at a bound or hit an engine error"
+			res.StopReason = "some paths were truncated at a bound, left the supported subset or hit an engine error"
 		}
 	}
 	for f := range funcs {
@@ -676,6 +680,8 @@ func newEngine(prog *ssa.Program, run *RunSpec, ts *TierSpec, knownIDs map[strin
 	e.maxPreempts = ts.Preempts
 	e.memYield = ts.MemYield
 	e.fnInfos = map[*ssa.Function]*fnInfo{}
+	e.fnMetas = map[*ssa.Function]*fnMeta{}
+	e.initGlobals = map[*ssa.Package]map[*ssa.Global]bool{}
 	e.funcsSeen = map[*ssa.Function]bool{}
 	e.repoFuncs = map[string]bool{}
 	return e
@@ -890,6 +896,7 @@ func pinnedReplay(spec *Spec, run *RunSpec, ts *TierSpec, f *Finding, workDir st
 	e := newEngine(ld.prog, run, ts, known, 0)
 	defer e.closeSolvers()
 	e.initAllow[harness.Pkg.Pkg.Path()] = true
+	e.initAllow[rtPkg] = true
 	e.pinned = f.Values
 	if e.pinned == nil {
 		e.pinned = map[string]string{}
